@@ -141,6 +141,16 @@ Theorem C14_bone_names_all : forall f names,
 Proof. exact rebuild_bones_all. Qed.
 Print Assumptions C14_bone_names_all.
 
+(* CloneNamedNode from another model (as repaired): the node appended to the destination carries
+   no child reference and no pointer at all - nothing of the source's numbering survives *)
+Theorem C14_clone_named_node_clean : forall s st name st' id,
+  WF st -> clone_named_node (Some s) st name = (st', id) -> id <> NPOS \/ st' <> st ->
+  exists b, id = vlen (bl st) /\ vget (bl st') id = Some b /\
+            Forall (fun r => r = NPOS) (crefs b) /\ Forall (fun r => r = NPOS) (ptrs b) /\
+            bl st' = bl st ++ [b] /\ WF st'.
+Proof. exact clone_named_node_clean. Qed.
+Print Assumptions C14_clone_named_node_clean.
+
 (* the canonical visiting order satisfies the hypothesis on enumerations *)
 Theorem C14_enum_canon_ok : enum_ok enum_canon.
 Proof. exact enum_canon_ok. Qed.
